@@ -41,12 +41,14 @@ Verdicts:
     (`unexpected_reason`) and broken correspondence (they are deterministic).
   * the messages of the real program are only counted.
 
-Quick tier: all 32 bits of every field of NFULL small files (the smallest
-without a block, with one block, with several blocks), a seeded sample of
-NSAMPLE = 4 bits of every field of the others and one compensated flip per
-file.  Thorough: every bit of every field, THOROUGH_COMP seeded compensated
-flips per block field.  The quick
-tier is sized by the cost of starting the real program (see NFULL below).
+Both tiers are sized by the cost of starting the real program (see TIERS):
+quick    all 32 bits of every field of 3 small files (the smallest without a
+         block, with one block, with several blocks), a seeded sample of 4
+         bits of every field of the others, one compensated flip per file;
+thorough all 32 bits of every field of the smallest files (400 fields), 8
+         seeded bits of every other field, 2..4 compensated flips per block
+         field;
+W25_ALL=1 in the environment: every bit of every field of every file.
 
 Use:  run(ck) from a property check, or standalone
       `python3 checks/w25_crcflip.py [--tier quick|thorough]` (prints the
@@ -68,14 +70,14 @@ import w22_expand as W  # noqa: E402
 
 NPROC = W.NPROC
 # Starting a process costs 6..10 ms on this machine and does NOT get faster in
-# parallel (about 100..150 lbzip2 runs per second whatever the number of
-# workers; more workers only burn system time), so the quick tier is sized by
-# the number of runs of the real program: 2 per flipped file.
-NFULL = 3           # quick: files whose fields get all 32 bits (full_set)
-NSAMPLE = 4         # quick: bits per field of the other files (>= 4)
-NSAMPLE_COMP = 1    # quick: compensated flips per file, the other files
-NFULL_COMP = 4      # quick: compensated flips per block field, NFULL files
-THOROUGH_COMP = 8   # thorough: compensated flips per block field
+# parallel (100..180 lbzip2 runs per second whatever the number of workers;
+# more workers only burn system time), so both tiers are sized by the number
+# of runs of the real program: 2 per flipped file.
+#          files with all 32 bits  fields  bits per     compensated flips per
+#          (full_set), at most     in them other field  block field: full / other
+TIERS = {'quick': (3, 10, 4, 4, 0),       # 0 -> one per file
+         'thorough': (10 ** 6, 400, 8, 4, 2),
+         'all': (10 ** 6, 10 ** 9, 32, 32, 32)}   # W25_ALL=1: every bit; ~1 h
 REAL_WORKERS = 3    # see above
 MAXMSG = 8
 MAXVIOL = 8
@@ -155,39 +157,42 @@ def valid_files(ck):
     return uniq
 
 
-def full_set(files):
-    """Quick tier: indices of the files whose fields get all 32 bits: the
-    smallest file without a block, with exactly one block, with two or more
-    blocks, then the next smallest ones up to NFULL."""
+def full_set(files, maxfiles, maxfields):
+    """Indices of the files whose fields get all 32 bits: the smallest file
+    without a block, with exactly one block, with two or more blocks, then
+    the next smallest ones, up to `maxfiles` files / `maxfields` fields."""
     pickd = []
     for want in (lambda nb: nb == 0, lambda nb: nb == 1, lambda nb: nb >= 2):
         for fi, (_, _, inf) in enumerate(files):
             if want(len(inf[1])) and fi not in pickd:
                 pickd.append(fi)
                 break
-    for fi in range(len(files)):
-        if len(pickd) >= NFULL:
+    pickd += [fi for fi in range(len(files)) if fi not in pickd]
+    out = set()
+    nfields = 0
+    for fi in pickd:
+        inf = files[fi][2]
+        nfields += len(inf[1]) + len(inf[2])
+        if len(out) >= maxfiles or (out and nfields > maxfields):
             break
-        if fi not in pickd:
-            pickd.append(fi)
-    return set(pickd[:NFULL])
+        out.add(fi)
+    return out
 
 
-def plan_flips(rng, quick, full, blocks, streams, per):
-    """List of (kind, field_index, bit in field, tuple of absolute bits).
-    `full`: all 32 bits of every field (else NSAMPLE seeded bits per field and
-    NSAMPLE_COMP compensated flips in the file)."""
-    full = full or not quick
+def plan_flips(rng, nbits, ncomp, blocks, streams, per):
+    """List of (kind, field_index, bit in field, tuple of absolute bits):
+    `nbits` seeded bits (32 = all) of every field, `ncomp` compensated flips
+    per block field."""
     out = []
 
     def pick(n):
         return list(range(32)) if n >= 32 else sorted(rng.sample(range(32), n))
 
     for i, (pos, _, _) in enumerate(blocks):
-        for b in pick(32 if full else NSAMPLE):
+        for b in pick(nbits):
             out.append(('block', i, b, (pos + b,)))
     for i, pos in enumerate(streams):
-        for b in pick(32 if full else NSAMPLE):
+        for b in pick(nbits):
             out.append(('stream', i, b, (pos + b,)))
     comp = []
     for i, (pos, s, j) in enumerate(blocks):
@@ -196,8 +201,7 @@ def plan_flips(rng, quick, full, blocks, streams, per):
             v = (31 - b + rot) % 32   # value bit of the combined CRC
             comp.append(('block+', i, b, (pos + b, streams[s] + 31 - v)))
     if comp:
-        k = THOROUGH_COMP * len(blocks) if not quick else \
-            NFULL_COMP * len(blocks) if full else NSAMPLE_COMP
+        k = max(1, int(ncomp * len(blocks)))
         comp = [comp[i] for i in sorted(rng.sample(range(len(comp)),
                                                    min(k, len(comp))))]
     return out + comp
@@ -251,13 +255,23 @@ def run(ck):
     # ---------------------------------------------------------- the cases
     tests = []      # (file index, kind, field index, bit, abs bits, data)
     seen = set()
-    fullset = full_set(files) if ck.quick else set(range(len(files)))
+    tier = 'all' if os.environ.get('W25_ALL') else \
+        'quick' if ck.quick else 'thorough'
+    maxfiles, maxfields, nbits, compfull, compother = TIERS[tier]
+    fullset = full_set(files, maxfiles, maxfields)
+    summ['tier'] = tier
     summ['files_all_32_bits'] = len(fullset)
+    summ['fields_all_32_bits'] = sum(len(files[fi][2][1]) +
+                                     len(files[fi][2][2]) for fi in fullset)
+    summ['bits_per_other_field'] = nbits
     for fi, (nm, d, (plain, blocks, streams, per)) in enumerate(files):
         summ['fields_block'] += len(blocks)
         summ['fields_stream'] += len(streams)
-        for kind, idx, b, bits in plan_flips(rng, ck.quick, fi in fullset,
-                                             blocks, streams, per):
+        isfull = fi in fullset
+        for kind, idx, b, bits in plan_flips(rng, 32 if isfull else nbits,
+                                             compfull if isfull else
+                                             compother, blocks, streams,
+                                             per):
             fd = flip(d, bits)
             k = hashlib.sha1(fd).digest()
             if k in seen:
